@@ -14,8 +14,10 @@
      gone       log files unlinked by the cleanup whose unlink is not yet made durable by a
                 directory fsync: after a crash ANY subset of them may still be there
    Volatile state of the running store (tendermintWALStore, walWriter)
-     pending, live (entriesByHeight), hf (walFilesByHeight; walHeightRefs is its image),
-     pruned (prunedUpToHeight), since (pruneRecordsSinceCleanup), cur / nextf (writer),
+     pending, live (entriesByHeight), hf (walFilesByHeight: the log files in which a live height has
+     entries), refs (walHeightRefs: a Go map log file -> number of live heights with entries in it, a
+     key is dropped when its count reaches 0; the ONLY thing the cleanup reads to decide which files
+     may go), pruned (prunedUpToHeight), since (pruneRecordsSinceCleanup), cur / nextf (writer),
      pc (position inside Flush and inside the prune cleanup), todo (obsolete files to remove)
    Ghost state (the property's vocabulary)
      flushed    the batches whose Flush returned success (or that a recovery brought back), in order
@@ -32,19 +34,28 @@ CONSTANTS MaxH,             \* heights are 1..MaxH
           MaxSteps,         \* bound on client-level steps (calls, crashes, opens)
           CleanupInterval,  \* prune records between two cleanups
           Faults,           \* TRUE: Flush may fail in the write or in the fsync
-          WatermarkFirst    \* TRUE (the code): the watermark is written before obsolete files are
+          WatermarkFirst,   \* TRUE (the code): the watermark is written before obsolete files are
                             \* removed; FALSE is a design mutant used to show the properties bite
+          RefCount          \* how addLiveEntry maintains walFilesByHeight / walHeightRefs:
+                            \*   "pair"   (the code) one reference per (live height, log file) pair
+                            \* design mutants (expected violations, and the alternatives the behaviour
+                            \* generator aims at, see WalMBT):
+                            \*   "height" one reference per live height, for the file of its first entry
+                            \*            only (deleteLiveHeight still releases one per pair)
+                            \*   "skipfirst" the first file of a height is remembered but not counted
+                            \*            (addIfMissing reporting "already there" for it)
+                            \*   "entry"  one reference per entry (never released completely: a leak)
 
 Hs == 1..MaxH
 Fs == 1..MaxFiles
 
 VARIABLES fex, fbs, tail, wm, wmNew, wmTmp, gone,
-          mode, pending, live, hf, pruned, since, cur, nextf, pc, todo, closing,
+          mode, pending, live, hf, refs, pruned, since, cur, nextf, pc, todo, closing,
           flushed, inflight, maybe, openErr,
           nid, steps, act, res
 
 durable == <<fex, fbs, tail, wm, wmNew, wmTmp, gone>>
-volatile == <<mode, pending, live, hf, pruned, since, cur, nextf, pc, todo, closing>>
+volatile == <<mode, pending, live, hf, refs, pruned, since, cur, nextf, pc, todo, closing>>
 ghost == <<flushed, inflight, maybe, openErr>>
 vars == <<durable, volatile, ghost, nid, steps, act, res>>
 view == <<durable, volatile, ghost, nid, steps>>
@@ -66,6 +77,7 @@ Flatten(bs) == IF bs = <<>> THEN <<>> ELSE Head(bs) \o Flatten(Tail(bs))
 NoTail == [f |-> 0, b |-> <<>>, whole |-> FALSE]
 EmptyLive == [h \in Hs |-> <<>>]
 EmptyHf == [h \in Hs |-> {}]
+EmptyRefs == [f \in {} |-> 0]            \* a Go map without keys
 
 --------------------------------------------------------------------------
 (* THE PROPERTY'S VOCABULARY: what a reader of the log must see, given the flushed batches.
@@ -79,35 +91,59 @@ View(bs) == [h \in Hs |-> IF h <= PrunedBy(bs) THEN <<>> ELSE Ids(EntriesOf(Flat
 
 --------------------------------------------------------------------------
 (* THE CODE'S INDEX MAINTENANCE (wal_index.go, replay.go): applied to a committed batch by Flush and
-   to every stored batch by Open. st = [live, hf, pruned]. *)
-ApplyRec(st, f, r) ==
+   to every stored batch by Open. st = [live, hf, refs, pruned].
+   addLiveEntry:      entriesByHeight[h] += entry; if walFilesByHeight[h].addIfMissing(f) then
+                      walHeightRefs[f]++
+   deleteLiveHeight:  for every f in walFilesByHeight[h]: walHeightRefs[f]--, the key is deleted when
+                      the count is 0 (a count below 0, possible under the mutants only, keeps the key)
+   `rule` is RefCount, or one of the alternatives that WalMBT follows as ghosts. *)
+RefInc(rf, f) == IF f \in DOMAIN rf THEN [rf EXCEPT ![f] = @ + 1] ELSE rf @@ (f :> 1)
+RefVal(rf, f) == IF f \in DOMAIN rf THEN rf[f] ELSE 0
+RefRelease(rf, files, dead) ==
+  LET n(f) == Cardinality({h \in dead : f \in files[h]})
+      keep == {f \in Fs : IF n(f) = 0 THEN f \in DOMAIN rf ELSE RefVal(rf, f) - n(f) # 0}
+  IN [f \in keep |-> RefVal(rf, f) - n(f)]
+
+ApplyRecR(rule, st, f, r) ==
   IF r.h <= st.pruned THEN st                      \* entry of a pruned height / stale prune: skipped
   ELSE IF r.k = "E"
-       THEN [st EXCEPT !.live[r.h] = Append(@, r.id), !.hf[r.h] = @ \cup {f}]
+       THEN LET known == st.hf[r.h]
+                add == f \notin known                       \* addIfMissing
+                inc == CASE rule = "height" -> known = {}
+                         [] rule = "entry" -> TRUE
+                         [] rule = "skipfirst" -> add /\ known # {}
+                         [] OTHER -> add
+            IN [st EXCEPT !.live[r.h] = Append(@, r.id),
+                          !.hf[r.h] = IF add THEN @ \cup {f} ELSE @,
+                          !.refs = IF inc THEN RefInc(@, f) ELSE @]
        ELSE [live |-> [h \in Hs |-> IF h <= r.h THEN <<>> ELSE st.live[h]],
              hf |-> [h \in Hs |-> IF h <= r.h THEN {} ELSE st.hf[h]],
+             refs |-> RefRelease(st.refs, st.hf, {h \in Hs : h <= r.h}),
              pruned |-> r.h]
 
-RECURSIVE ApplyRecs(_, _, _)
-ApplyRecs(st, f, rs) == IF rs = <<>> THEN st ELSE ApplyRecs(ApplyRec(st, f, Head(rs)), f, Tail(rs))
+RECURSIVE ApplyRecsR(_, _, _, _)
+ApplyRecsR(rule, st, f, rs) ==
+  IF rs = <<>> THEN st ELSE ApplyRecsR(rule, ApplyRecR(rule, st, f, Head(rs)), f, Tail(rs))
+ApplyRecs(st, f, rs) == ApplyRecsR(RefCount, st, f, rs)
 
-RECURSIVE ApplyFiles(_, _, _)
-ApplyFiles(st, fseq, content) ==
+RECURSIVE ApplyFilesR(_, _, _, _)
+ApplyFilesR(rule, st, fseq, content) ==
   IF fseq = <<>> THEN st
-  ELSE ApplyFiles(ApplyRecs(st, Head(fseq), Flatten(content[Head(fseq)])), Tail(fseq), content)
+  ELSE ApplyFilesR(rule, ApplyRecsR(rule, st, Head(fseq), Flatten(content[Head(fseq)])), Tail(fseq), content)
 
 (* What NewTendermintWALStore computes from a directory image img = [fex, fbs, tail, wm]:
    recoverLatestWALTail inspects only the highest-numbered log; a complete unsynced batch there is
    kept, invalid bytes are cut.  An invalid tail in any other log makes loadLogicalLog fail. *)
-Recover(img) ==
+RecoverR(rule, img) ==
   LET latest == SetMax(img.fex)
       there == img.tail.f # 0 /\ img.tail.f \in img.fex
       keep == there /\ img.tail.whole               \* a complete record is read wherever it is
       content == IF keep THEN [img.fbs EXCEPT ![img.tail.f] = Append(@, img.tail.b)] ELSE img.fbs
       err == there /\ img.tail.f # latest /\ ~img.tail.whole
-      st == ApplyFiles([live |-> EmptyLive, hf |-> EmptyHf, pruned |-> img.wm],
-                       SortedSeq(img.fex), content)
+      st == ApplyFilesR(rule, [live |-> EmptyLive, hf |-> EmptyHf, refs |-> EmptyRefs, pruned |-> img.wm],
+                        SortedSeq(img.fex), content)
   IN [st |-> st, content |-> content, kept |-> keep, err |-> err, latest |-> latest]
+Recover(img) == RecoverR(RefCount, img)
 
 (* Every directory image a crash in the current state can leave. *)
 TailChoices ==
@@ -123,7 +159,8 @@ CrashImages ==
 Init ==
   /\ fex = {} /\ fbs = [f \in Fs |-> <<>>] /\ tail = NoTail /\ wm = 0 /\ wmNew = -1 /\ wmTmp = FALSE
   /\ gone = {}
-  /\ mode = "up" /\ pending = <<>> /\ live = EmptyLive /\ hf = EmptyHf /\ pruned = 0 /\ since = 0
+  /\ mode = "up" /\ pending = <<>> /\ live = EmptyLive /\ hf = EmptyHf /\ refs = EmptyRefs
+  /\ pruned = 0 /\ since = 0
   /\ cur = 0 /\ nextf = 1 /\ pc = "idle" /\ todo = <<>> /\ closing = FALSE
   /\ flushed = <<>> /\ inflight = <<>> /\ maybe = <<>> /\ openErr = FALSE
   /\ nid = 1 /\ steps = 0 /\ act = [name |-> "Init"] /\ res = "ok"
@@ -137,7 +174,7 @@ AppendE(h) ==
   /\ pending' = IF h <= pruned THEN pending ELSE Append(pending, E(h, nid))
   /\ nid' = nid + 1
   /\ act' = [name |-> "Append", h |-> h, id |-> nid] /\ res' = "ok"
-  /\ UNCHANGED <<durable, mode, live, hf, pruned, since, cur, nextf, pc, todo, closing, ghost>>
+  /\ UNCHANGED <<durable, mode, live, hf, refs, pruned, since, cur, nextf, pc, todo, closing, ghost>>
 
 (* DeleteWALEntries: merged into the pending prune record if there is one (wherever it is) *)
 HasP(rs) == \E i \in 1..Len(rs) : rs[i].k = "P"
@@ -150,7 +187,7 @@ PruneUpTo(h) ==
           ELSE /\ Len(pending) <= MaxBatch
                /\ pending' = Append(pending, P(h))
   /\ act' = [name |-> "Prune", h |-> h] /\ res' = "ok"
-  /\ UNCHANGED <<durable, mode, live, hf, pruned, since, cur, nextf, pc, todo, closing, ghost, nid>>
+  /\ UNCHANGED <<durable, mode, live, hf, refs, pruned, since, cur, nextf, pc, todo, closing, ghost, nid>>
 
 (* Flush, step 1: ensureWriter (create NNNNNN.log + directory fsync) and WriteRecord.
    outcome "ok": all bytes of the batch reach the file; "werr": the write fails part-way. *)
@@ -167,7 +204,7 @@ WriteBatch(outcome) ==
   /\ tail' = [f |-> cur', b |-> pending, whole |-> outcome = "ok"]
   /\ pc' = IF outcome = "ok" THEN "written" ELSE "werr"
   /\ inflight' = IF outcome = "ok" THEN pending ELSE <<>>
-  /\ UNCHANGED <<wm, wmNew, wmTmp, mode, pending, live, hf, pruned, since, todo,
+  /\ UNCHANGED <<wm, wmNew, wmTmp, mode, pending, live, hf, refs, pruned, since, todo,
                  flushed, maybe, openErr, nid>>
 
 Outcomes == IF Faults THEN {"ok", "werr"} ELSE {"ok"}
@@ -188,7 +225,7 @@ Close(os) ==
   /\ IF pending = <<>>
      THEN /\ mode' = "down" /\ cur' = 0
           /\ act' = [name |-> "Close", outcome |-> "noop"] /\ res' = "ok"
-          /\ UNCHANGED <<durable, pending, live, hf, pruned, since, nextf, pc, todo, closing, ghost, nid>>
+          /\ UNCHANGED <<durable, pending, live, hf, refs, pruned, since, nextf, pc, todo, closing, ghost, nid>>
      ELSE \E o \in os :
             /\ WriteBatch(o)
             /\ closing' = TRUE
@@ -208,10 +245,10 @@ SyncOk ==
   /\ fbs' = [fbs EXCEPT ![cur] = Append(@, pending)]
   /\ tail' = NoTail
   /\ flushed' = Append(flushed, pending) /\ inflight' = <<>>
-  /\ LET st == ApplyRecs([live |-> live, hf |-> hf, pruned |-> pruned], cur, pending)
+  /\ LET st == ApplyRecs([live |-> live, hf |-> hf, refs |-> refs, pruned |-> pruned], cur, pending)
          np == NumP(pending)
          due == np > 0 /\ since + np >= CleanupInterval
-     IN /\ live' = st.live /\ hf' = st.hf /\ pruned' = st.pruned
+     IN /\ live' = st.live /\ hf' = st.hf /\ refs' = st.refs /\ pruned' = st.pruned
         /\ since' = since + np
         /\ pending' = <<>>
         /\ IF due
@@ -225,7 +262,7 @@ SyncErr ==
   /\ Faults /\ mode = "up" /\ pc = "written"
   /\ pc' = "serr"
   /\ act' = [name |-> "SyncErr"] /\ res' = "pending"
-  /\ UNCHANGED <<durable, mode, pending, live, hf, pruned, since, cur, nextf, todo, closing, ghost, nid, steps>>
+  /\ UNCHANGED <<durable, mode, pending, live, hf, refs, pruned, since, cur, nextf, todo, closing, ghost, nid, steps>>
 
 (* Flush, step 3 after a failure: abortUncommitted = close the writer, truncate the file back to
    the last synced offset, fsync it.  The batch stays pending; Flush returns the error. *)
@@ -234,7 +271,7 @@ Abort ==
   /\ tail' = NoTail /\ cur' = 0 /\ inflight' = <<>>
   /\ Return("err")
   /\ act' = [name |-> "Abort"]
-  /\ UNCHANGED <<fex, fbs, wm, wmNew, wmTmp, gone, pending, live, hf, pruned, since, nextf, todo,
+  /\ UNCHANGED <<fex, fbs, wm, wmNew, wmTmp, gone, pending, live, hf, refs, pruned, since, nextf, todo,
                  flushed, maybe, openErr, nid, steps>>
 
 (* The prune cleanup (removeObsoleteWALFiles), step by step. *)
@@ -242,13 +279,13 @@ WmTmp ==
   /\ mode = "up" /\ pc = (IF WatermarkFirst THEN "c0" ELSE "crm") /\ (WatermarkFirst \/ todo = <<>>)
   /\ wmTmp' = TRUE /\ pc' = "ctmp"
   /\ act' = [name |-> "WmTmp"] /\ UNCHANGED res
-  /\ UNCHANGED <<fex, fbs, tail, wm, wmNew, gone, mode, pending, live, hf, pruned, since, cur, nextf,
+  /\ UNCHANGED <<fex, fbs, tail, wm, wmNew, gone, mode, pending, live, hf, refs, pruned, since, cur, nextf,
                  todo, closing, ghost, nid, steps>>
 WmRename ==
   /\ mode = "up" /\ pc = "ctmp"
   /\ wmTmp' = FALSE /\ wmNew' = pruned /\ pc' = "cren"
   /\ act' = [name |-> "WmRename"] /\ UNCHANGED res
-  /\ UNCHANGED <<fex, fbs, tail, wm, gone, mode, pending, live, hf, pruned, since, cur, nextf,
+  /\ UNCHANGED <<fex, fbs, tail, wm, gone, mode, pending, live, hf, refs, pruned, since, cur, nextf,
                  todo, closing, ghost, nid, steps>>
 CleanupDone ==
   /\ since' = 0 /\ cur' = 0 /\ Return("ok")
@@ -260,42 +297,46 @@ WmSyncDir ==
      THEN /\ pc' = "csync" /\ UNCHANGED <<res, mode, closing, since, cur>>
      ELSE CleanupDone
   /\ act' = [name |-> "WmSyncDir"]
-  /\ UNCHANGED <<tail, wmTmp, pending, live, hf, pruned, nextf, todo, ghost, nid, steps>>
+  /\ UNCHANGED <<tail, wmTmp, pending, live, hf, refs, pruned, nextf, todo, ghost, nid, steps>>
 (* rotateAfterSynced closes the writer (end-of-file trailer, fsync); cleanupObsoleteWALs computes the
-   logs below the lowest log still referenced by a live height (and below the next log number). *)
+   logs below the lowest log that still has a key in walHeightRefs (and below the next log number):
+   it reads the reference counts, not the per-height file sets. *)
 Referenced == UNION {hf[h] : h \in Hs}
+Obsolete(rf) == {f \in fex : f < SetMin({nextf} \cup DOMAIN rf)}
 Rotate ==
   /\ mode = "up" /\ pc = (IF WatermarkFirst THEN "csync" ELSE "c0")
   /\ cur' = 0
-  /\ todo' = SortedSeq({f \in fex : f < SetMin({nextf} \cup Referenced)})
+  /\ todo' = SortedSeq(Obsolete(refs))
   /\ pc' = "crm"
   /\ act' = [name |-> "Rotate"] /\ UNCHANGED res
-  /\ UNCHANGED <<durable, mode, pending, live, hf, pruned, since, nextf, closing, ghost, nid, steps>>
+  /\ UNCHANGED <<durable, mode, pending, live, hf, refs, pruned, since, nextf, closing, ghost, nid, steps>>
 RemoveFile ==
   /\ mode = "up" /\ pc = "crm" /\ todo # <<>>
   /\ fex' = fex \ {Head(todo)} /\ gone' = gone \cup {Head(todo)}
   /\ todo' = Tail(todo)
   /\ act' = [name |-> "RemoveFile", f |-> Head(todo)] /\ UNCHANGED res
-  /\ UNCHANGED <<fbs, tail, wm, wmNew, wmTmp, mode, pending, live, hf, pruned, since, cur, nextf, pc,
+  /\ UNCHANGED <<fbs, tail, wm, wmNew, wmTmp, mode, pending, live, hf, refs, pruned, since, cur, nextf, pc,
                  closing, ghost, nid, steps>>
 RemoveDone ==
   /\ WatermarkFirst /\ mode = "up" /\ pc = "crm" /\ todo = <<>>
   /\ CleanupDone
   /\ act' = [name |-> "CleanupDone"]
-  /\ UNCHANGED <<durable, pending, live, hf, pruned, nextf, todo, ghost, nid, steps>>
+  /\ UNCHANGED <<durable, pending, live, hf, refs, pruned, nextf, todo, ghost, nid, steps>>
 
 (* A crash at any point of a running store: one of the possible directory images survives. *)
 Crash(img) ==
   /\ mode = "up" /\ Tick
   /\ fex' = img.fex /\ fbs' = img.fbs /\ tail' = img.tail /\ wm' = img.wm
   /\ wmNew' = -1 /\ gone' = {} /\ UNCHANGED wmTmp
-  /\ mode' = "down" /\ pending' = <<>> /\ live' = EmptyLive /\ hf' = EmptyHf /\ pruned' = 0
+  /\ mode' = "down" /\ pending' = <<>> /\ live' = EmptyLive /\ hf' = EmptyHf /\ refs' = EmptyRefs
+  /\ pruned' = 0
   /\ since' = 0 /\ cur' = 0 /\ pc' = "idle" /\ todo' = <<>> /\ closing' = FALSE
   /\ maybe' = inflight /\ inflight' = <<>>
   /\ act' = [name |-> "Crash", at |-> pc,
              tailc |-> IF img.tail.f = 0 THEN "none" ELSE IF img.tail.whole THEN "whole" ELSE "torn",
              wmc |-> IF wmNew = -1 THEN "same" ELSE IF img.wm = wmNew THEN "new" ELSE "old",
-             removed |-> Cardinality(gone), back |-> Cardinality(img.fex \ fex)]
+             removed |-> Cardinality(gone), back |-> Cardinality(img.fex \ fex),
+             backset |-> img.fex \ fex]
   /\ res' = "ok"
   /\ nextf' = 1
   /\ UNCHANGED <<flushed, openErr, nid>>
@@ -305,7 +346,7 @@ Open ==
   /\ mode = "down" /\ Tick
   /\ LET r == Recover([fex |-> fex, fbs |-> fbs, tail |-> tail, wm |-> wm])
      IN /\ fbs' = r.content /\ tail' = NoTail
-        /\ live' = r.st.live /\ hf' = r.st.hf /\ pruned' = r.st.pruned
+        /\ live' = r.st.live /\ hf' = r.st.hf /\ refs' = r.st.refs /\ pruned' = r.st.pruned
         /\ nextf' = r.latest + 1
         /\ openErr' = (openErr \/ r.err)
         /\ flushed' = IF r.kept THEN Append(flushed, maybe) ELSE flushed
@@ -334,6 +375,7 @@ TypeOK ==
   /\ pruned \in 0..MaxH /\ wm \in 0..MaxH /\ wmNew \in -1..MaxH
   /\ cur \in 0..MaxFiles /\ nextf \in 1..(MaxFiles + 1)
   /\ tail.f \in 0..MaxFiles
+  /\ DOMAIN refs \subseteq Fs
 
 (* C14, first sentence, on the running store: what LoadAllEntries returns is exactly the view of
    the flushed batches (in particular after every Open, whatever crash image it started from). *)
@@ -373,4 +415,25 @@ FailedFlushHarmless ==
 
 (* reference counting: a log still holding an entry of a live height is never removed *)
 LiveFilesKept == mode = "up" => Referenced \subseteq fex
+
+(* walHeightRefs is exactly the image of walFilesByHeight: a key per referenced log, its count the
+   number of live heights with entries in that log (so: no drift, however heights are spread over logs
+   by restarts and rotations, and however they are pruned) *)
+RefsExact ==
+  mode = "up" =>
+    /\ DOMAIN refs = Referenced
+    /\ \A f \in DOMAIN refs : refs[f] = Cardinality({h \in Hs : f \in hf[h]})
+
+(* the same in the property's own vocabulary, without the code's index: a log file that disappears
+   from the directory holds no flushed entry of a height that is not yet pruned *)
+HoldsLive(f) ==
+  LET rs == Flatten(fbs[f])
+  IN \E i \in 1..Len(rs) : rs[i].k = "E" /\ rs[i].h > PrunedBy(flushed)
+CleanupKeepsLive == [][\A f \in fex \ fex' : ~HoldsLive(f)]_vars
+(* ... and it removes everything else below the first log it has to keep (no leak): after a completed
+   cleanup the directory holds, below the writer's next log, nothing older than the oldest log with
+   a live entry *)
+CleanupRemovesDead ==
+  [][(pc = "crm" /\ pc' = "idle" /\ steps' = steps) =>
+        \A f \in fex' : f >= SetMin({nextf} \cup {g \in fex : HoldsLive(g)})]_vars
 =============================================================================
